@@ -2,15 +2,13 @@ import Martian.Lemmas.Grpc
 /-!
 C11 — `adapter.Header` as a function of the ORDERED header field list.
 
-What the code does (and the model transcribes): a stream becomes gRPC when some field is exactly
-`content-type: application/grpc`; then ALL `grpc-encoding` fields of the block are visited in
-order, each recognised value overwrites the encoding (the last one wins), an unrecognised value is
-an error. The two scans are independent, so the position of `content-type` relative to
-`grpc-encoding` is irrelevant (the seeded defect C11-C merged the scans and lost that).
-
-Finding (open, `c11:grpc-subtype-not-recognised`): the gRPC wire spec allows
-`application/grpc+proto`, `application/grpc+json`, `application/grpc;…`; the code compares for
-equality, so such streams are forwarded untouched and their processor is shown nothing.
+What the code does (and the model transcribes): a stream becomes gRPC when some field named
+`content-type` has a value `isGRPCContentType` accepts — `application/grpc`, alone or followed by
+`+subtype` or `;parameter` (fix 1b6fe6f; the code used to compare for equality, finding F11d);
+then ALL `grpc-encoding` fields of the block are visited in order, each recognised value
+overwrites the encoding (the last one wins), an unrecognised value is an error. The two scans are
+independent, so the position of `content-type` relative to `grpc-encoding` is irrelevant (the
+seeded defect C11-C merged the scans and lost that).
 -/
 namespace Martian.Props.C11
 open Martian Martian.Grpc
@@ -18,7 +16,7 @@ open Martian Martian.Grpc
 /-- the `grpc-encoding` fields of a block (what the second loop of `adapter.Header` looks at) -/
 def encFields (hs : List Header) : List Header := hs.filter (fun h => h.1 = geName)
 
-/-- the announcing field -/
+/-- the announcing field in its bare form -/
 def grpcCT : Header := (ctName, ctGrpc)
 
 /-! ## literals (regenerated from the source) and the value table -/
@@ -36,61 +34,90 @@ theorem ctName_ne_geName : ctName ≠ geName := by decide
 
 /-! ## gRPC detection -/
 
-/-- detection is membership of the exact field — position and multiplicity are irrelevant -/
-theorem grpc_detected_iff (hs : List Header) : isGrpcHeaders hs = true ↔ grpcCT ∈ hs := by
-  simp only [isGrpcHeaders, List.any_eq_true, grpcCT]
-  constructor
-  · rintro ⟨⟨n, v⟩, hm, hc⟩
-    simp at hc
-    rw [← hc.1, ← hc.2]; exact hm
-  · intro hm
-    exact ⟨_, hm, by simp⟩
-
-theorem grpc_detected_anywhere (pre post : List Header) : isGrpcHeaders (pre ++ grpcCT :: post) = true :=
-  (grpc_detected_iff _).mpr (by simp)
-
-/-- the value is compared for equality: anything else (a `+proto` / `;charset` suffix, another
-case, trailing space) does not announce gRPC; nor does another spelling of the name -/
-theorem content_type_match_is_exact (n v : Bytes) (h : n ≠ ctName ∨ v ≠ ctGrpc) :
-    isGrpcHeaders [(n, v)] = false := by
-  rcases h with h | h <;> simp [isGrpcHeaders, h]
-
 /-- A content-type that announces gRPC according to the gRPC-over-HTTP/2 specification
 (`"application/grpc" [("+proto" / "+json" / {custom})]`, and — as grpc-go reads it — a `;`
 parameter). -/
 def SpecGrpcContentType (v : Bytes) : Prop :=
   v = ctGrpc ∨ ∃ t, v = ctGrpc ++ 0x2B :: t ∨ v = ctGrpc ++ 0x3B :: t
 
-/-- Full statement: every stream the specification calls gRPC is treated as gRPC. -/
+theorem grpcCT_spec : SpecGrpcContentType grpcCT.2 := Or.inl rfl
+
+theorem ctSeps_eq : ctSeps = [0x2B, 0x3B] := by decide
+
+/-- **`isGRPCContentType` accepts exactly the content-types of the specification.** -/
+theorem isGrpcCT_iff (v : Bytes) : isGrpcCT v = true ↔ SpecGrpcContentType v := by
+  simp only [isGrpcCT, ctSeps_eq, Bool.and_eq_true, Bool.or_eq_true, beq_iff_eq, List.isPrefixOf_iff_prefix]
+  constructor
+  · rintro ⟨⟨t, rfl⟩, h⟩
+    cases t with
+    | nil => left; simp
+    | cons x t =>
+      right
+      rcases h with h | h
+      · simp at h
+      · have hx : (ctGrpc ++ x :: t).getD ctGrpc.length 0 = x := by
+          simp [List.getD_eq_getElem?_getD]
+        rw [hx] at h
+        simp at h
+        rcases h with rfl | rfl
+        · exact ⟨t, Or.inl rfl⟩
+        · exact ⟨t, Or.inr rfl⟩
+  · rintro (rfl | ⟨t, rfl | rfl⟩)
+    · exact ⟨⟨[], by simp⟩, Or.inl rfl⟩
+    · exact ⟨⟨_, rfl⟩, Or.inr (by simp [List.getD_eq_getElem?_getD])⟩
+    · exact ⟨⟨_, rfl⟩, Or.inr (by simp [List.getD_eq_getElem?_getD])⟩
+
+/-- detection: some field named `content-type` carries such a value — position and multiplicity
+are irrelevant -/
+theorem grpc_detected_iff (hs : List Header) :
+    isGrpcHeaders hs = true ↔ ∃ v, (ctName, v) ∈ hs ∧ SpecGrpcContentType v := by
+  simp only [isGrpcHeaders, List.any_eq_true]
+  constructor
+  · rintro ⟨⟨n, v⟩, hm, hc⟩
+    simp at hc
+    exact ⟨v, by rw [← hc.1]; exact hm, (isGrpcCT_iff v).mp hc.2⟩
+  · rintro ⟨v, hm, hv⟩
+    exact ⟨_, hm, by simp [(isGrpcCT_iff v).mpr hv]⟩
+
+theorem grpc_detected_anywhere (pre post : List Header) (v : Bytes) (hv : SpecGrpcContentType v) :
+    isGrpcHeaders (pre ++ (ctName, v) :: post) = true :=
+  (grpc_detected_iff _).mpr ⟨v, by simp, hv⟩
+
+/-- Full statement (false of the code before fix 1b6fe6f, which compared for equality): every
+stream the specification calls gRPC is treated as gRPC. -/
 def DetectsEveryGrpcContentType : Prop :=
   ∀ (v : Bytes) (pre post : List Header), SpecGrpcContentType v → isGrpcHeaders (pre ++ (ctName, v) :: post) = true
 
-/-- False of the code: `application/grpc+proto` is not recognised. -/
-theorem detects_every_grpc_content_type_counterexample : ¬ DetectsEveryGrpcContentType := by
-  intro h
-  have := h (strBytes "application/grpc+proto") [] [] (Or.inr ⟨strBytes "proto", Or.inl (by decide)⟩)
-  revert this
+theorem detects_every_grpc_content_type : DetectsEveryGrpcContentType :=
+  fun v pre post hv => grpc_detected_anywhere pre post v hv
+
+/-- … and nothing else: a block without such a field does not switch the stream to gRPC (another
+name, another media type, `application/grpc-web`, `application/grpcx`, another case, surrounding
+blanks). -/
+theorem detects_only_grpc_content_types (hs : List Header)
+    (h : ∀ x ∈ hs, x.1 = ctName → ¬ SpecGrpcContentType x.2) : isGrpcHeaders hs = false := by
+  cases hg : isGrpcHeaders hs with
+  | false => rfl
+  | true =>
+    obtain ⟨v, hm, hv⟩ := (grpc_detected_iff hs).mp hg
+    exact absurd hv (h _ hm rfl)
+
+/-- look-alikes, decided on the model's test (the oracle's `headers:not-grpc` inputs) -/
+theorem lookalike_content_types_not_grpc :
+    ([strBytes "application/grpc-web", strBytes "application/grpc-web+proto", strBytes "application/grpcx",
+      strBytes "application/grp", strBytes "Application/grpc", strBytes "application/grpc ",
+      strBytes " application/grpc", strBytes "application/GRPC", strBytes "application/json", []].map isGrpcCT).all (· == false)
+    ∧ ([strBytes "application/grpc", strBytes "application/grpc+proto", strBytes "application/grpc+json",
+        strBytes "application/grpc;charset=utf-8", strBytes "application/grpc+", strBytes "application/grpc;"].map isGrpcCT).all (· == true) := by
   decide
 
-/-- … and the part that holds: the bare media type, anywhere in the block. -/
-theorem detects_grpc_content_type_partial (pre post : List Header) :
-    isGrpcHeaders (pre ++ (ctName, ctGrpc) :: post) = true := grpc_detected_anywhere pre post
-
-/-- What happens to such a stream (concrete witness, replayed on the implementation by
-`corpus/C11/directed.ops`): HEADERS and DATA reach the sink as they are, the processor is shown no
-message. -/
-theorem grpc_subtype_not_processed_counterexample (cd : Codec) :
-    Stream.run cd {} [.headers .c2s [(ctName, strBytes "application/grpc+proto")] false,
-                      .data .c2s [0, 0, 0, 0, 1, 0x41] true]
-      = [(.c2s, .sinkHeader [(ctName, strBytes "application/grpc+proto")] false),
-         (.c2s, .sinkData [0, 0, 0, 0, 1, 0x41] true)] := by
-  rw [run_not_grpc cd {} _ rfl (by
-    intro f hf
-    simp at hf
-    rcases hf with h | h <;> subst h
-    · simp only [Frame.announcesGrpc]; decide
-    · rfl)]
-  rfl
+/-- The former counterexample of F11d, now positive: a block announcing `application/grpc+proto`
+switches the stream to gRPC and reaches the processor, then the sink. -/
+theorem grpc_subtype_is_processed (d : Dir) (es : Bool) :
+    ({} : Stream).header d [(ctName, strBytes "application/grpc+proto")] es
+      = ({ enabled := true }, [.procHeader [(ctName, strBytes "application/grpc+proto")] es,
+                               .sinkHeader [(ctName, strBytes "application/grpc+proto")] es]) := by
+  cases d <;> cases es <;> decide
 
 /-! ## the `grpc-encoding` scan over the ordered field list -/
 
@@ -195,25 +222,26 @@ theorem header_order_independent (s : Stream) (d : Dir) (hs hs' : List Header) (
     cases hsc : scanEncoding (s.get d).enc (encFields hs') with
     | mk e ok => cases ok <;> simp
 
-private theorem encFields_move_ct (pre post : List Header) :
-    encFields (pre ++ grpcCT :: post) = encFields (grpcCT :: (pre ++ post)) := by
-  have : ¬ (grpcCT.1 = geName) := ctName_ne_geName
+private theorem encFields_move_ct (pre post : List Header) (v : Bytes) :
+    encFields (pre ++ (ctName, v) :: post) = encFields ((ctName, v) :: (pre ++ post)) := by
+  have : ¬ (ctName = geName) := ctName_ne_geName
   simp [encFields, this]
 
-/-- **Order independence w.r.t. content-type**: `content-type: application/grpc` anywhere in the
-block acts as if it came first. -/
-theorem content_type_position_irrelevant (s : Stream) (d : Dir) (pre post : List Header) (es : Bool) :
-    (s.header d (pre ++ grpcCT :: post) es).1 = (s.header d (grpcCT :: (pre ++ post)) es).1 :=
+/-- **Order independence w.r.t. content-type**: the announcing field (`application/grpc`, with or
+without subtype / parameter) anywhere in the block acts as if it came first. -/
+theorem content_type_position_irrelevant (s : Stream) (d : Dir) (pre post : List Header) (v : Bytes)
+    (hv : SpecGrpcContentType v) (es : Bool) :
+    (s.header d (pre ++ (ctName, v) :: post) es).1 = (s.header d ((ctName, v) :: (pre ++ post)) es).1 :=
   (header_order_independent s d _ _ es es
-    (by rw [grpc_detected_anywhere pre post]; exact ((grpc_detected_iff _).mpr (by simp)).symm)
-    (encFields_move_ct pre post)).1
+    (by rw [grpc_detected_anywhere pre post v hv]; exact (grpc_detected_anywhere [] (pre ++ post) v hv).symm)
+    (encFields_move_ct pre post v)).1
 
 /-- `adapter.Header` on a block that announces gRPC (or on a stream already gRPC), with
 well-formed encodings: the stream is gRPC afterwards, the adapter of this direction has the
 encoding of the last `grpc-encoding` field, its reassembly state is untouched, the other
 direction's adapter is untouched, and the block reaches the processor and then the sink unchanged. -/
 theorem header_selects_last_encoding (s : Stream) (d : Dir) (hs pre post : List Header) (v : Bytes) (e' : Enc)
-    (es : Bool) (hen : s.enabled = true ∨ grpcCT ∈ hs) (hsplit : hs = pre ++ (geName, v) :: post)
+    (es : Bool) (hen : s.enabled = true ∨ ∃ ct, (ctName, ct) ∈ hs ∧ SpecGrpcContentType ct) (hsplit : hs = pre ++ (geName, v) :: post)
     (hpre : ∀ x ∈ pre, x.1 = geName → (encOfName x.2).isSome = true)
     (hpost : ∀ x ∈ post, x.1 ≠ geName) (hv : encOfName v = some e') :
     (s.header d hs es).1.enabled = true
@@ -232,13 +260,14 @@ theorem header_selects_last_encoding (s : Stream) (d : Dir) (hs pre post : List 
   intro d' hd
   cases d <;> cases d' <;> simp_all [Stream.set, Stream.get]
 
-/-- The input class of the seeded defect C11-C as an instance: `grpc-encoding` listed BEFORE
-`content-type: application/grpc` in the first header block of a new stream is honoured. -/
-theorem encoding_before_content_type_honoured (d : Dir) (v : Bytes) (e' : Enc) (mid post : List Header)
+/-- The input class of the seeded defect C11-C as an instance: `grpc-encoding` listed BEFORE the
+announcing `content-type` field in the first header block of a new stream is honoured. -/
+theorem encoding_before_content_type_honoured (d : Dir) (v ct : Bytes) (e' : Enc) (mid post : List Header)
+    (hct : SpecGrpcContentType ct)
     (hmid : ∀ x ∈ mid, x.1 ≠ geName) (hpost : ∀ x ∈ post, x.1 ≠ geName) (hv : encOfName v = some e') (es : Bool) :
-    ((({} : Stream).header d ((geName, v) :: (mid ++ grpcCT :: post)) es).1.get d).enc = e' := by
-  have := (header_selects_last_encoding {} d ((geName, v) :: (mid ++ grpcCT :: post)) [] (mid ++ grpcCT :: post) v e' es
-    (Or.inr (by simp)) rfl (by simp)
+    ((({} : Stream).header d ((geName, v) :: (mid ++ (ctName, ct) :: post)) es).1.get d).enc = e' := by
+  have := (header_selects_last_encoding {} d ((geName, v) :: (mid ++ (ctName, ct) :: post)) [] (mid ++ (ctName, ct) :: post) v e' es
+    (Or.inr ⟨ct, by simp, hct⟩) rfl (by simp)
     (by
       intro x hx
       simp at hx
@@ -289,5 +318,10 @@ example : scanEncoding .identity [(geName, strBytes "gzip"), grpcCT, (geName, st
 
 example : SpecGrpcContentType (strBytes "application/grpc;charset=utf-8") :=
   Or.inr ⟨strBytes "charset=utf-8", Or.inr (by decide)⟩
+
+/-- `grpc-encoding` before a `+proto` content-type -/
+example : ((({} : Stream).header .s2c
+    [(geName, strBytes "snappy"), (ctName, strBytes "application/grpc+proto")] true).1.get .s2c).enc = .snappy := by
+  decide
 
 end Martian.Props.C11
